@@ -522,7 +522,8 @@ def e3_specs(tier, variants=True, deep=False):
     expression, t) are applied to every shape whose dependency sets are singletons or empty (stated bound)."""
     out = []
     # the deep shape family (two-intermediate shapes with <= 2 dependencies, three-intermediate chains: 17 431 shapes) is only used where one
-    # model costs milliseconds (C01); everywhere else the thorough tier differs from quick in the other dimensions (namings, grids, options)
+    # model costs milliseconds (C01); everywhere else the thorough tier has the same E3 specs as quick (the checks drop their quick-only
+    # naming filter, which doubles their share) and differs in the other dimensions (E1 depth, grids, options, backends)
     shapes = e3_shapes("thorough" if (deep and tier != "quick") else "quick")
     tier = tier if (deep or tier == "quick") else "quick+"
     for si, sh in enumerate(shapes):
@@ -533,8 +534,8 @@ def e3_specs(tier, variants=True, deep=False):
     if variants:
         small = [(si, sh) for si, sh in enumerate(shapes)
                  if all(len(d) <= 1 for d in sh[0]) and len(sh[1]) <= 1 and len(sh[2]) <= 1 and len(sh[0]) <= 2]
-        if tier == "quick":
-            # quick: zero/one-intermediate shapes, and two-intermediate *chains* (i2 defined from i1) read through x, p or i2
+        if tier in ("quick", "quick+"):
+            # quick (and the non-deep thorough family): zero/one-intermediate shapes, and two-intermediate *chains* (i2 defined from i1) read through x, p or i2
             small = [(si, sh) for si, sh in small
                      if len(sh[0]) <= 1 or (sh[0][1] == ("i1",) and set(sh[1]) <= {"x", "p", "i2"} and set(sh[2]) <= {"x", "p", "i2"})]
         pv = L.bin_("+", L.bin_("*", L.num("2"), L.num("3")), L.call("exp", L.num("0")))
